@@ -67,7 +67,7 @@ CLAIMS = {
          "definition; over R on every class and dimension (diffusion D>=0, upwind with divergence-free u, sink): |step - steady| <= W*A/(A+dt*B) (beta>=B>0), |step - old| <= dt*P/a0, |implicit - explicit| <= dt^2*Q/a0, and the epsilon-forms of both limits (Props/C12.v). Not covered by theorems: dt->inf with beta = 0, central advection. Suites solve/explicit; dt sweeps over 12 decades, multi-step and explicit update_value loops on the real code", "DESIGN.md 4 (C12)"),
  "C13": ("Theorems about the limiter definitions REGENERATED from utilities.fluxLimiter / advection._fsign on every run (published closed form "
          "for every real r, all denominators non-zero, psi(1)=1, 0<=psi<=min(2r,4), clipping, fallback, _fsign never 0, |_fsign(x)| >= eps1 with the sign of x so that every gradient ratio a/_fsign(x) is bounded by |a|/eps1), translator sanity at Qc "
-         "inside Coq, symbolic tie of the ratios the TVD code forms (a/_fsign(face gradient)) and a search on the real code. BINARY64 LEVEL: the regenerated definitions are also evaluated with Coq's primitive floats (IEEE 754 binary64) and compared bit for bit with numpy (incl. denormals and the overflow region); on Flocq's specification of primitive floats it is proved that all 16 limiters, the unknown-name fallback and _fsign are finite (no overflow, no invalid operation) for every float |r| <= 2^500 (C13_float_finite_up_to_2p500: all 16 names and the fallback, every finite guard 0 < eps <= 1; C13_float_finite_partial gives the value bound 2^1002 for 12 of them), and the full statement is refuted beyond 2^512 by evaluation (C13_float_overflow_refuted; known finding c13:float_overflow)", "DESIGN.md 2.1, 4 (C13)"),
+         "inside Coq, symbolic tie of the ratios the TVD code forms (a/_fsign(face gradient)) and a search on the real code. BINARY64 LEVEL: the regenerated definitions are also evaluated with Coq's primitive floats (IEEE 754 binary64) and compared bit for bit with numpy (incl. denormals and the overflow region); on Flocq's specification of primitive floats it is proved that all 16 limiters, the unknown-name fallback and _fsign are finite (no overflow, no invalid operation) for every float |r| <= 2^500 (C13_float_finite_up_to_2p500: all 16 names and the fallback, every finite guard 0 < eps <= 1; C13_float_finite_partial gives the value bound 2^1002 for 12 of them), the guard _fsign is exact in binary64 (returns x, eps1 or -eps1, magnitude >= eps1: C13_float_fsign_exact) so that the ratio and FL(ratio) are finite floats for face gradients up to 2^400 (C13_float_limited_ratio_finite); the full statement is refuted beyond 2^512 by evaluation (C13_float_overflow_refuted; known finding c13:float_overflow)", "DESIGN.md 2.1, 4 (C13)"),
 }
 props = [json.loads(l) for l in open(os.path.join(V, "properties.jsonl"))]
 old = {}
